@@ -307,7 +307,7 @@ def Orders.reversePostOrder (o : Orders) : List Nat := o.postOrder.toList.revers
 structure Components where
   count : Nat
   id : Array Nat
-  deriving Repr
+  deriving Repr, DecidableEq
 
 /-- `VertexPreOrder: func(v int) bool { cc.id[v] = cc.count; return true }` with the current count -/
 def idVisitors (count : Nat) : Visitors (Array Nat) :=
@@ -442,7 +442,7 @@ def DC.cycleList (c : DC) : Option (List Nat) := c.cycle
 structure Topological where
   order : Option (List Nat)
   rank : Option (Array Nat)
-  deriving Repr
+  deriving Repr, DecidableEq
 
 /-- `for i, v := range t.order { t.rank[v] = i }` -/
 def rankLoop : List Nat → Nat → Array Nat → Outcome (Array Nat)
